@@ -15,7 +15,7 @@ Nothing in the model half (expected_doc / normalise) touches productmd.
 from rv.gen import text
 from rv.model import domains
 
-ARCH_POOL = ["x86_64", "i386", "aarch64", "ppc64le", "s390x", "armhfp", "ppc64", "ia64"]
+ARCH_POOL = ["x86_64", "i386", "aarch64", "ppc64le", "s390x", "armhfp", "ppc64", "ia64", "src", "noarch", "riscv64"]
 
 
 # --------------------------------------------------------------------------
